@@ -314,6 +314,11 @@ fn programs(family: &str) -> Vec<(String, Outcome)> {
             p(&format!("{}start :: fn do\n    a := A.Y\n    case a do\n        X v ->\n            print(v)\n        end\n        else\n            e := 3\n        end\n    end\n    print(e)\nend\n", enum_a), Outcome::Reject);
             p("start :: fn do\n    f :: fn p: int do\n        q := p\n    end\n    f(1)\n    print(p)\nend\n", Outcome::Reject);
             p("start :: fn do\n    f :: fn p: int do\n        q := p\n    end\n    f(1)\n    print(q)\nend\n", Outcome::Reject);
+            // a qualified name a.b.x: b is looked up in the namespace a denotes, not in the using file
+            let mods = "//==file shop.sy\nuse tools\nprice :: 3\n//==file tools.sy\nprice :: 7\n//==file spare.sy\nprice :: \"s\"\n";
+            p(&format!("use shop\nuse spare as tools\nstart :: fn do\n    x: int = shop.tools.price\n    y: str = tools.price\nend\n{}", mods), Outcome::Accept);
+            p(&format!("use shop\nuse spare as tools\nstart :: fn do\n    x: str = shop.tools.price\nend\n{}", mods), Outcome::Reject);
+            p(&format!("use shop\nstart :: fn do\n    x: int = shop.tools.price\nend\n{}", mods), Outcome::Accept);
             // locals of a global's initialiser are locals (also when the initialiser is not a function)
             p("limit :: 10\nbonus :: if limit < 20 do\n    extra :: 5\n    extra + 1\nelse\n    0\nend\nstart :: fn do\n    print(bonus)\nend\n", Outcome::Accept);
             p("limit :: 10\nbonus :: if limit < 20 do\n    extra :: 5\n    extra + 1\nelse\n    0\nend\nstart :: fn do\n    print(extra)\nend\n", Outcome::Reject);
